@@ -533,7 +533,10 @@ pub fn run(args: &Args) -> ! {
     random_mem(&mut ctx, n);
     ctx.bump_sample_cap(6);
     let n = ctx.tier.pick(6_000, 20_000);
-    random_sock(&mut ctx, n);
+    // on a tree that already failed in memory the socket runs add nothing but stalls
+    if !ctx.failed() {
+        random_sock(&mut ctx, n);
+    }
     if !ctx.failed() {
         let (nm, ns) = (ctx.tier.pick(300, 3_000), ctx.tier.pick(60, 600));
         long_pipelines(&mut ctx, nm, ns);
